@@ -1047,6 +1047,7 @@ def p_svd(itp, name, args, kw, node, st):
     Vh.mirror = True        # rows of Vh are the *conjugated* right singular vectors
     USED.add('svd(A): singular values real >= 0, non-increasing, homogeneous of the magnitude degree of A and '
              'invariant under a unitary diagonal acting on the rows; singular vectors are degree 0')
+    itp.events.append(('svd', node, a, S, Vh))
     return Tup([U, S, Vh])
 
 
